@@ -42,11 +42,14 @@ def isAnd : S1.Pred → Bool
   | .and _ _ => true
   | _ => false
 
-/-- the three variables are distinct and every one of them is read by the RETURN (then the frame projects all three bindings);
-no WHERE conjunct is itself a conjunction (the parser flattens `c1 AND (…)`-free conjunctions into one list) -/
+/-- the three variables are distinct, something is returned, and no WHERE conjunct is itself a conjunction (the parser flattens
+`c1 AND (…)`-free conjunctions into one list) -/
 def Query.wf (q : Query) : Bool :=
-  q.a != q.r && q.a != q.b && q.r != q.b && !q.items.isEmpty &&
-  q.items.any (·.ref == .a) && q.items.any (·.ref == .r) && q.items.any (·.ref == .b) && q.wh.all (fun c => !isAnd c.2)
+  q.a != q.r && q.a != q.b && q.r != q.b && !q.items.isEmpty && q.wh.all (fun c => !isAnd c.2)
+
+/-- is the variable read by a RETURN item or a WHERE conjunct? (kinds in the pattern do not count) — the lowering ProjectionPruning keeps
+exactly these bindings in the frame -/
+def Query.reads (q : Query) (x : Ref) : Bool := q.items.any (·.ref == x) || q.wh.any (·.1 == x)
 
 -- ------------------------------------------------------------------ Cypher reading
 
@@ -155,8 +158,13 @@ def Query.flipSel (q : Query) : Bool := decide (nodeSel (q.preds .b) q.bkinds - 
 def Query.flipPlan (q : Query) : Bool :=
   (!q.bkinds.isEmpty || !(q.preds .b).isEmpty) && !(!q.akinds.isEmpty || !(q.preds .a).isEmpty)
 
-/-- the statement with the join order given: `flip` = the right node is joined first -/
-def Query.trWith (km : KindMap) (q : Query) (flip : Bool) : Option Sql.Stmt :=
+/-- the frame's select list: the composites of the bindings that are kept, in the order e0, n0, n1 -/
+def frameProj (ke ka kb : Bool) : List Sql.Expr :=
+  ([(ke, edgeComposite), (ka, nodeCompositeOf "n0"), (kb, nodeCompositeOf "n1")].filter (·.1)).map (·.2)
+
+/-- the statement with the join order given (`flip` = the right node is joined first) and with (`prune`, the optimised translator) or
+without (the unoptimised one) the lowering ProjectionPruning: the frame projects only the bindings that are read / all three -/
+def Query.trWith (km : KindMap) (q : Query) (flip prune : Bool) : Option Sql.Stmt :=
   if !q.wf then none else
   match kindIds? km q.akinds, kindIds? km q.rkinds, kindIds? km q.bkinds,
         predsE km "n0" false (q.preds .a), predsE km "e0" true (q.preds .r), predsE km "n1" false (q.preds .b) with
@@ -166,16 +174,16 @@ def Query.trWith (km : KindMap) (q : Query) (flip : Bool) : Option Sql.Stmt :=
     let joins := if flip then [jb, ja] else [ja, jb]
     let wh : Option Sql.Expr := both pr (kr.map (fun ids => .bin "=" (col "e0" "kind_id") (.anyOf (kindsLit ids))))
     some (.query (.mk false
-      [.mk "s0" none none (Sql.Query.simple (.select false [edgeComposite, nodeCompositeOf "n0", nodeCompositeOf "n1"]
+      [.mk "s0" none none (Sql.Query.simple (.select false (frameProj (!prune || q.reads .r) (!prune || q.reads .a) (!prune || q.reads .b))
         [.mk (.table ["edge"] (some "e0")) joins] wh [] none))]
       (.select false (q.items.map (Item.tr q)) [.mk (.table ["s0"] none) []] none [] none) [] none none))
   | _, _, _, _, _, _ => none
 
 /-- what `Translate` emits (optimiser on): the plan's direction decision, else the selectivity balance -/
-def Query.tr (km : KindMap) (q : Query) : Option Sql.Stmt := q.trWith km (q.flipPlan || q.flipSel)
+def Query.tr (km : KindMap) (q : Query) : Option Sql.Stmt := q.trWith km (q.flipPlan || q.flipSel) true
 
 /-- what `TranslateUnoptimized` emits: the selectivity balance only -/
-def Query.trUnopt (km : KindMap) (q : Query) : Option Sql.Stmt := q.trWith km q.flipSel
+def Query.trUnopt (km : KindMap) (q : Query) : Option Sql.Stmt := q.trWith km q.flipSel false
 
 end Dawgs.C01.S2
 
@@ -226,12 +234,12 @@ def graphOK2b (km : KindMap) (g : Graph) : Bool :=
 order of the hop is chosen by the real translator with a selectivity heuristic over its Go syntax tree (pointer-typed nodes only) that the
 reflection rendering does not determine; the model therefore takes the choice as a PARAMETER `flipOf`, and every theorem about `tr2F`
 holds for every choice -/
-def tr2F (flipOf : S2.Query → Bool) (km : KindMap) (q : Cy.Query) : Option (Sql.Stmt × List (String × Val)) :=
+def tr2F (flipOf : S2.Query → Bool) (prune : Bool) (km : KindMap) (q : Cy.Query) : Option (Sql.Stmt × List (String × Val)) :=
   match tr km q with
   | some r => some r
   | none =>
     match ofCy2 q with
-    | some s => (s.trWith km (flipOf s)).map (fun st => (st, []))
+    | some s => (s.trWith km (flipOf s) prune).map (fun st => (st, []))
     | none => none
 
 /-- the model's own approximation of the direction choice with the optimiser on (exact on stage S2a; see `tr2F`) -/
@@ -239,6 +247,6 @@ def flipOpt (s : S2.Query) : Bool := s.flipPlan || s.flipSel
 /-- … and with the optimiser off -/
 def flipUnopt (s : S2.Query) : Bool := s.flipSel
 
-def tr2 (km : KindMap) (q : Cy.Query) : Option (Sql.Stmt × List (String × Val)) := tr2F flipOpt km q
+def tr2 (km : KindMap) (q : Cy.Query) : Option (Sql.Stmt × List (String × Val)) := tr2F flipOpt true km q
 
 end Dawgs.C01
